@@ -701,6 +701,55 @@ theorem C11.apg_resume_needs_state :
   norm_num
 end
 
+/-! ### Round 5: Douglas–Rachford primal–dual called again with the returned `x` -/
+section
+variable {K V W : Type} [Field K] [AddCommGroup V] [Module K V] [AddCommGroup W] [Module K W]
+set_option linter.unusedSectionVars false
+
+/-- `douglas_rachford_pd` with `n` iterations calls the callback `n` times, and (for `n > 0`) the last
+iterate it showed is the returned `x` (`x.assign(p1); return` in the last pass) — any number of
+operators, with or without the `l` terms. -/
+theorem C11.dr_run_callbacks (P : DrP K V W) (z : V) (n : Nat) (s : DrS V W) :
+    (P.run z n s).log.length = s.log.length + n ∧
+    (0 < n → (P.run z n s).log.getLast? = some (P.run z n s).x) := by
+  cases n with
+  | zero => simp [DrP.run]
+  | succ n =>
+    have hlen : ∀ (k : Nat) (t : DrS V W), ((P.step z)^[k] t).log.length = t.log.length + k := by
+      intro k t
+      have := iterate_count (P.step z) (fun s => s.log.length) 1 (fun s => by simp [dr_step_log]) k t
+      simpa using this
+    simp only [DrP.run, iter_eq, DrP.last]
+    refine ⟨?_, fun _ => ?_⟩
+    · simp [hlen]; omega
+    · simp
+
+/-- The split run executed by the driver for the stream `dr_restart` (`DrP.runSplit`: `n` iterations,
+then a second call on the returned `x` with `k` iterations, dual variables back at zero): `n + k`
+callbacks in total, the last one (if the second call iterates) showing the returned `x`. -/
+theorem C11.dr_runSplit_callbacks (P : DrP K V W) (z : V) (zw : Nat → W) (x0 : V) (n k : Nat) :
+    (P.runSplit z zw x0 n k).log.length = n + k ∧
+    (0 < k → (P.runSplit z zw x0 n k).log.getLast? = some (P.runSplit z zw x0 n k).x) := by
+  have h1 := C11.dr_run_callbacks P z n ⟨x0, zw, z, []⟩
+  have h2 := C11.dr_run_callbacks P z k ⟨(P.run z n ⟨x0, zw, z, []⟩).x, zw, z, []⟩
+  simp only [DrP.runSplit, List.length_append]
+  refine ⟨by simp [h1.1, h2.1], fun hk => ?_⟩
+  have := h2.2 hk
+  have hne : (P.run z k ⟨(P.run z n ⟨x0, zw, z, []⟩).x, zw, z, []⟩).log ≠ [] := by
+    intro h; rw [h] at this; simp at this
+  rw [List.getLast?_append_of_ne_nil _ hne]
+  exact this
+
+/-- `douglas_rachford_pd` cannot be resumed from `x`: the dual variables `v` are locals (and the last
+pass returns the proximal point, not the running `x`).  One operator `L = id`, `prox_f = ·/4`,
+`prox_{g*} = ·/2`: two iterations then one give `1/32`, three give `1/16`. -/
+theorem C11.dr_resume_needs_state :
+    let P : DrP ℚ ℚ ℚ := ⟨1, fun _ x => x, fun _ y => y, fun x => x / 4, fun _ y => y / 2, 1, fun _ => 1, 1, none⟩
+    (P.runSplit 0 (fun _ => 0) 1 2 1).x = 1 / 32 ∧ (P.run 0 (2 + 1) ⟨1, fun _ => 0, 0, []⟩).x = 1 / 16 := by
+  simp only [DrP.runSplit, DrP.run, DrP.last, DrP.half, DrP.step, iter, lincomb, smul_eq_mul]
+  norm_num [sumAdj]
+end
+
 /-! ### Callbacks -/
 
 /-- Callbacks: a loop `for _ in range(n): step; callback(x)` calls the callback exactly `n` times,
